@@ -3,7 +3,7 @@ from .common import fams, generic_replay, PATTERNS
 
 
 def run(tier):
-    return scans.scan_check("C03", ("EOS.",), {"EOS"}, fams({'EOS'}, extra=('EHEP','EPpiston','Mader','BBNoh','RiemannGen','RiemannJWL','RMTV')), tier, require_patterns=PATTERNS)
+    return scans.scan_check("C03", ("EOS.",), {"EOS"}, fams({'EOS'}, extra=('EHEP','EPpiston','Mader','BBNoh','RiemannGen','RiemannJWL','RMTV','Guderley')), tier, require_patterns=PATTERNS)
 
 
 def replay(path):
